@@ -153,3 +153,49 @@ def _veq(u, v, tol):
     if isinstance(u, (int, float)) and isinstance(v, (int, float)):
         return u == v or abs(u - v) <= tol * max(1.0, abs(u), abs(v))
     return u == v
+
+
+def typed_worker(args):
+    import random
+    import shutil
+    import signal
+    import tempfile
+    from pathlib import Path
+    import pandas as pd
+    import eng
+    from vtlengine import run
+    from sem.variants import _canon
+    from sem.runner import _TO, _alarm
+    c, k, form = args
+    rows = list(c['rows'])
+    cols = list(c['cols'])
+    if k >= 2:
+        r = random.Random(k * 7919)
+        r.shuffle(rows)
+        order = list(range(len(cols)))
+        r.shuffle(order)
+        cols = [cols[j] for j in order]
+        rows = [[row[j] for j in order] for row in rows]
+    df = pd.DataFrame(rows, columns=cols, dtype=object)
+    signal.signal(signal.SIGALRM, _alarm)
+    signal.alarm(120)
+    tmp = None
+    try:
+        dp = {'DS_1': df}
+        if form == 'csv':
+            tmp = tempfile.mkdtemp(prefix='verif_c33_')
+            p = Path(tmp) / 'DS_1.csv'
+            df.to_csv(p, index=False)
+            dp = {'DS_1': p}
+        out = eng.outcome(run, c['script'], c['structs'], dp)
+        if out[0] == 'raw' and 'interrupted' in str(out[-1]).lower():
+            return ('timeout',)
+        return _canon(eng, out)
+    except _TO:
+        return ('timeout',)
+    finally:
+        signal.alarm(0)
+        if tmp:
+            shutil.rmtree(tmp, ignore_errors=True)
+
+
